@@ -109,7 +109,9 @@ def observe(text):
         obs['line'] = m.group(1) if m else None
         obs['key'] = 'R#' + (m.group(1) if m else '?')
     try:
+        # a job that held a program before: a rejected text must not leave that one, or a part of the new one, behind
         job = ScriptJob()
+        job.load_string('on all')
         with lang.time_limit(8):
             job.load_string(text)
         obs['job_program_none'] = job.program is None
@@ -141,6 +143,18 @@ def run(ctx):
     import rulebreakers
     for rule, cname, t in rulebreakers.texts():
         texts.append(('rule:' + rule, t))
+    # every pair and triple of operators, chained without parentheses, and with a leading minus: valid, must be accepted
+    ops = ['+', '-', '*', '/', '%', '^', '<', '<=', '>', '>=', '==', '!=', 'and', 'or']
+    for a in ops:
+        for b in ops:
+            texts.append(('valid-expr', 'assign v {7 %s 3 %s 2}' % (a, b)))
+        texts.append(('valid-expr', 'assign v 1 hue {v %s 2 %s v %s 3}' % (a, a, a)))   # v = 1: a tower of ^ stays small
+        texts.append(('valid-expr', 'define f with p begin return {p %s -p %s (p %s 1)} end print [f 3]' % (a, a, a)))
+        texts.append(('valid-expr', 'if {-2 %s 5} hue {2 ^ 3 ^ 2 %s 1}' % (a, a)))
+        texts.append(('valid-expr', 'assign v 2 hue {{v} %s {3 %s {v}} %s ({1})}' % (a, a, a)))
+    for t in ['hue {{5}}', 'println {2 * {3}}', 'define f with a begin return a end hue {2 * {[f 3]}}', 'define f with a begin print a end define g [f 1]\ng',
+              'define f begin print 1 end define m "f"\nprint m', 'define f begin print 1 end define g [f]\n[g]', 'assign s "f" define f begin print s end f']:
+        texts.append(('valid-expr', t))
     for f in common.os.listdir(common.os.path.join(common.VERIF, 'corpus', 'C06')) if common.os.path.isdir(common.os.path.join(common.VERIF, 'corpus', 'C06')) else []:
         texts.insert(0, ('corpus', open(common.os.path.join(common.VERIF, 'corpus', 'C06', f)).read()))
     seen = set()
@@ -164,6 +178,8 @@ def run(ctx):
             ctx.counterexample('C06/compiler-raises-' + o['raises'].split(':')[0].replace('ScriptJob', '').strip(),
                                'compiling %r raises %s' % (t[:120], o['raises']), {'text': t})
             continue
+        if not o['ok'] and kind == 'valid-expr':
+            ctx.counterexample('C06/valid-expression-rejected', 'the valid text %r is rejected: %s' % (t[:160], o['errors'].strip()[:100]), {'text': t})
         if o['ok'] and kind.startswith('rule:'):
             ctx.counterexample('C06/rule-not-enforced-' + kind[5:], 'the text %r breaks the rule `%s` and is accepted' % (t[:160], kind[5:]), {'text': t})
         if not o['ok']:
